@@ -198,7 +198,7 @@ def run_group(pid, groups, tier, only=None, known_ids=()):
                 if feats:
                     extra += ["--features", feats]
                 log = os.path.join(VERIF, "build", "kani-%s-%s%s.log" % (pid, crate, ("-" + feats) if feats else ""))
-                rc, out, cmd = _run_kani(sc.crate_dir(crate), names, extra, 1500 if tier == "quick" else 7200, log)
+                rc, out, cmd = _run_kani(sc.crate_dir(crate), names, extra, 1500 if tier == "quick" else 3600, log)
                 res["cmd"] = (res["cmd"] + " ; " if res["cmd"] else "") + cmd
                 pr = parse_results(out, names)
                 if "error: could not compile" in out or "error[E" in out:
